@@ -1,5 +1,6 @@
 """Implements the xonsh executer."""
 
+import ast as pyast
 import builtins
 import collections.abc as cabc
 import inspect
@@ -92,6 +93,10 @@ class Execer:
         tree, input = self._parse_ctx_free(input, mode=mode, filename=filename)
         if tree is None:
             return None
+        if mode == "exec" and isinstance(tree, pyast.Expression):
+            # a sole unparenthesised tuple statement (``a, b`` / ``ls -- a,b``)
+            # reduces to eval_input; in exec mode it is a one-statement module
+            tree = pyast.Module(body=[self.parser.expr(tree.body)], type_ignores=[])
 
         # [Phase 2]
         # Now we need to perform context-aware AST transformation. This is
